@@ -179,7 +179,8 @@ let find_model_sess (st : state) sid = List.find_opt (fun s -> s.s_id = sid) st.
 
 let store_snap (st : state) =
   let ims = List.map (fun (sid, im) ->
-      sid_name sid ^ ":" ^ show_addr im.s_b4 ^ "/" ^ show_addr im.s_b6 ^ "/" ^ show_item im.s_bd) st.st_prov.store in
+      sid_name sid ^ ":" ^ show_addr im.s_b4 ^ "/" ^ show_addr im.s_b6 ^ "/" ^ show_item im.s_bd
+      ^ "@" ^ show_addr im.s_a4 ^ "/" ^ show_addr im.s_a6 ^ "/" ^ show_item im.s_ad) st.st_prov.store in
   "S[" ^ String.concat "," (sorted ims) ^ "]"
 
 (* all candidate paths of a list of (model op, reply kind): returns (state, reply tokens) list *)
@@ -218,12 +219,17 @@ let run_case_b variant line isegs =
   let fresh g = g.exists <- true; g.inc <- g.inc + 1; g.approved <- false; g.inflight <- false;
     g.created <- false; g.pend_d <- false; g.pend_q <- false; g.pend_s <- false; g.pend_v <- false;
     g.queued <- false; g.ll <- false; g.ll_img <- false; g.args <- (N0, None, None, None, None); g.rq <- None in
+  let alt_ops : (op * string) list option ref = ref None in
   (* pending packets replayed after the AAA answer / the session creation, in the order the code replays them *)
   let pending k g =
     let pd = g.pend_d and pq = g.pend_q and ps = g.pend_s and pv = g.pend_v in
     g.pend_d <- false; g.pend_q <- false; g.pend_s <- false; g.pend_v <- false;
-    (if pd then [(idop k g false, "offer")] else []) @ (if pq then [(idop2 k g true (not variant.d6), "ack")] else [])
-    @ (if ps then [(isop k g false, "")] else []) @ (if pv then [(isop k g true, "")] else []) in
+    let v4 = (if pd then [(idop k g false, "offer")] else []) @ (if pq then [(idop2 k g true (not variant.d6), "ack")] else [])
+    and v6 = (if ps then [(isop k g false, "")] else []) @ (if pv then [(isop k g true, "")] else []) in
+    (* the two families are replayed on two goroutines (handleAAAResponse: wg.Wait on both): either may run first,
+       which shows in the image a checkpoint of one of them writes (with or without the other's context address) *)
+    if v4 <> [] && v6 <> [] then alt_ops := Some (v6 @ v4);
+    v4 @ v6 in
   let show_rec s' k g =
     if not g.exists then "gone" else
       match cur_sess s' k g with
@@ -245,6 +251,7 @@ let run_case_b variant line isegs =
           vq := [];
           let ops = List.concat_map (fun k -> let g = gate k in
               g.queued <- false; g.created <- true; pending k g) q in
+          alt_ops := None;   (* forwardLatePendingPackets replays sequentially, DHCPv4 first *)
           Some ("bc", ops, -1, None)
         | ["BD"; k] ->
           let g = gate k in
@@ -271,8 +278,9 @@ let run_case_b variant line isegs =
             if not g.exists then fresh g;
             g.pend_s <- true; g.ll <- true;   (* the session learns the client's link-local address *)
             if g.approved && g.created then Some ("bs", [(isop k g false, "")], 0, Some (k, g))
-            else if g.approved || g.inflight then Some ("bs", [], 0, Some (k, g))
-            else (g.inflight <- true; Some ("bs", [], 1, Some (k, g)))
+            (* not yet answerable: the packet waits, but the session already records the client's DUID *)
+            else if g.approved || g.inflight then Some ("bs", [(IM (cur_sid k g), "")], 0, Some (k, g))
+            else (g.inflight <- true; Some ("bs", [(IM (cur_sid k g), "")], 1, Some (k, g)))
           end
         | [("BV" | "BW") as t; k] ->
           let g = gate k in
@@ -289,7 +297,12 @@ let run_case_b variant line isegs =
               | [a; b] -> (opt_tok nd a, opt_tok item_of_tok b) | _ -> (None, None) in
             g.approved <- true; g.inflight <- false; g.args <- (nd vrf, opt_tok nd s4, opt_tok nd o4, s6, spd);
             if not g.created && not g.queued then (if queue then (g.queued <- true; vq := !vq @ [k]) else g.created <- true);
-            Some ("ba", pending k g, 0, Some (k, g))
+            (* buildAllocContext with all attributes first, then the pending packets of the two families *)
+            let (vrf', s4', o4', s6', spd') = g.args in
+            let ic = (IC (cur_sid k g, vrf', s4', o4', s6', spd', None, None), "") in
+            let ops = pending k g in
+            (match !alt_ops with Some a -> alt_ops := Some (ic :: a) | None -> ());
+            Some ("ba", ic :: ops, 0, Some (k, g))
           end
         | ["BJ"; k] ->
           let g = gate k in
@@ -344,7 +357,8 @@ let run_case_b variant line isegs =
              else Printf.sprintf "%s %s aaa=%d rec=%s" tag replies aaa
                  (match sub with Some (k, g) -> show_rec s' k g | None -> "gone") in
            head ^ " | " ^ snapb s' in
-         let cands = run_ops variant !st ops in
+         let cands = run_ops variant !st ops @ (match !alt_ops with Some o -> run_ops variant !st o | None -> []) in
+         alt_ops := None;
          let want = if !idx < Array.length isegs then Some isegs.(!idx) else None in
          let pick = match want with
            | Some w -> (match List.find_opt (fun c -> render c = w) cands with
